@@ -40,8 +40,9 @@ for d in sorted(glob.glob(os.path.join(ROOT, 'seeded', '*'))):
         continue
     j = json.load(open(m))
     esc = lambda s: str(s).replace('|', '\\|').replace('\n', ' ')
+    fin = lambda r: ('%s (%s violation lines, %s with a failing input)%s' % (r.get('result'), r.get('violations'), r.get('with_failing_input'), ('; ' + r['note']) if r.get('note') else '')) if isinstance(r, dict) else r
     out += '| %s | %s | %s | %s | %s | %s |\n' % (os.path.basename(d), j.get('property', ''), esc(j.get('summary', ''))[:300], esc(j.get('needs', ''))[:200],
-                                        esc(j.get('result_first_run', j.get('caught_by', '')))[:160], esc(j.get('result_final', ''))[:160])
+                                        esc(j.get('result_first_run', j.get('caught_by', '')))[:160], esc(fin(j.get('result_final', '')))[:200])
 out += '\n' + rd('95_cost.md')
 out += rd('A_semantics.md') + rd('B_absgraph.md')
 out += '## Appendix C – the round-0 plan per property (for comparison with section 7)\n\n' + rd('70_plan.md').replace('## 7. Properties', '').lstrip()
